@@ -472,6 +472,74 @@ def showErr (i : Nat) : LoadErr → String
   | .panicOverflow => "PANIC"
   | .panicUnreachable => "PANIC"
 
+/-! ## the category column of `InputBuffer::build` (`input_text/buffer/mod.rs`)
+
+`build` walks `self.modified.char_indices()` and pushes `cats.get_category_types(ch)` to `mod_cat` for every
+character, in text order; nothing else writes `mod_cat`.  `cat_at_char(i)` is `self.mod_cat[i]`,
+`cat_of_range(s..e)` is `CategoryType::empty()` for an empty range and otherwise the fold of `&` over
+`self.mod_cat[s..e]` starting from `CategoryType::all()` (= every bit of the `u32`: `ALL | NOOOVBOW | NOOOVBOW2`).
+`none` = panic (index / slice out of range; a panicking look-up). -/
+
+/-- `CategoryType::all().bits()` -/
+def ALL_BITS : Nat := 0xFFFFFFFF
+
+/-- `mod_cat` after `build`: one `get_category_types` per character of the text, pushed left to right -/
+def bufferCats (tab : List (Nat × Nat)) : List Nat → Option (List Nat)
+  | [] => some []
+  | ch :: rest =>
+    match lookup tab ch with
+    | none => none
+    | some c => (bufferCats tab rest).map (c :: ·)
+
+/-- `InputTextIndex::cat_at_char` -/
+def catAtChar (modCat : List Nat) (i : Nat) : Option Nat := modCat[i]?
+
+/-- `InputTextIndex::cat_of_range` -/
+def catOfRange (modCat : List Nat) (s e : Nat) : Option Nat :=
+  if e ≤ s then some 0
+  else if modCat.length < e then none
+  else some (((modCat.drop s).take (e - s)).foldl (fun a b => a &&& b) ALL_BITS)
+
+def showOptNat : Option Nat → String
+  | some n => toString n
+  | none => "PANIC"
+
+/-- one text of `C17 buffer`: the classes at every character, `PANIC` when `build` panics -/
+def showBufferText (tab : List (Nat × Nat)) (text : List Nat) : String :=
+  match bufferCats tab text with
+  | none => "PANIC"
+  | some mc => Wire.joinWith "," ((List.range text.length).map (fun i => showOptNat (catAtChar mc i)))
+
+/-- one range query `t:s:e` of `C17 buffer` -/
+def showBufferRange (tab : List (Nat × Nat)) (texts : List (List Nat)) (q : List Nat) : String :=
+  match q with
+  | [t, s, e] =>
+    match texts[t]? with
+    | none => "bad-op"
+    | some text =>
+      match bufferCats tab text with
+      | none => "PANIC"
+      | some mc => showOptNat (catOfRange mc s e)
+  | _ => "bad-op"
+
+/-- `C17 buffer def=<hex of file> texts=<cp,cp;cp,..> rng=<text:start:end,..>`: every text is given to one
+`InputBuffer::build` with the loaded definition; answer = `cat_at_char` of every position of every text and
+`cat_of_range` of every query -/
+def handleBuffer (toks : List (List Char)) : String :=
+  match Wire.kv? toks "def", Wire.kv? toks "texts", Wire.kv? toks "rng" with
+  | some d, some t, some r =>
+    match Wire.hexBytes? d, Wire.allSome ((Wire.items ';' t).map Wire.natList?),
+          Wire.allSome ((Wire.items ',' r).map Wire.natTuple?) with
+    | some bytes, some texts, some qs =>
+      match readDef bytes with
+      | .error (i, e) => showErr i e
+      | .ok rs =>
+        let tab := compile rs
+        "ok cats=" ++ Wire.joinWith ";" (texts.map (showBufferText tab))
+          ++ " rng=" ++ Wire.joinWith "," (qs.map (showBufferRange tab texts))
+    | _, _, _ => "bad-op"
+  | _, _, _ => "bad-op"
+
 /-- `C17 chardef def=<hex of file> probe=<nat list>` -/
 def handle (toks : List (List Char)) : String :=
   match Wire.kv? toks "def", Wire.kv? toks "probe" with
